@@ -14,7 +14,7 @@ Definition ex_bank : str := [66; 97; 110; 107].                (* Bank *)
 Definition ex_food : str := [70; 111; 111; 100].               (* Food *)
 
 Definition xa (m : N) (s : nat) : xamount := {| xa_value := mkd false m s; xa_ccy := ex_chf |}.
-Definition fr (a : option str) : fragment := {| f_payee := None; f_account := a; f_cleared := true |}.
+Definition fr (a : option str) : fragment := {| f_payee := None; f_account := a; f_cleared := true; f_code := None |}.
 Definition dt (d : N) : date := {| d_y := 2024; d_m := 1; d_d := d |}.
 
 (* credit 50.00, value date one day before booking *)
